@@ -285,6 +285,10 @@ impl ClientSim {
             probes: Probes {
                 client_in_flight: Some(self.probes.in_flight.get()),
                 client_timers: Some(self.probes.timers.get()),
+                inbound_len: self.tr.inbound_len(),
+                buffered: self.tr.buffered(),
+                budget_zero: self.tr.budget() == 0,
+                dispatch_alive: self.exec.state(self.dispatch_task) == TaskState::Alive,
                 ..Default::default()
             },
         });
@@ -569,9 +573,18 @@ impl ClientSim {
                 let d = self.max_deadline_ns() + 5_000_000;
                 let now = clock::now_ns() as i128;
                 if d > now {
-                    // in at most a few big steps
                     let total = (d - now) as u64;
                     clock::advance(Duration::from_nanos(total)).await;
+                }
+                // a queued request written after its deadline expires one timer granule after the
+                // write; each expiry can free a slot for the next queued request
+                let rounds = self.calls.borrow().len() + 2;
+                for _ in 0..rounds {
+                    self.drain().await;
+                    if self.livelock.get() || self.pending_calls().is_empty() {
+                        break;
+                    }
+                    clock::advance(Duration::from_millis(3)).await;
                 }
             }
             COp::CloseOut => {
